@@ -14,7 +14,8 @@ inductive Shape
   | none
   | ok (s : Shape)
   | err (s : Shape)
-  | cell (borrowed : Bool) (s : Shape) -- `RefCell`
+  | cell (borrowed : Bool) (s : Shape) -- `RefCell`, `borrowed` = mutably borrowed right now
+  | cellShared (s : Shape)             -- `RefCell` with a shared borrow (`Ref`) alive right now
   | md (s : Shape)                     -- `ManuallyDrop`
   | aus (s : Shape)                    -- `AssertUnwindSafe`
   deriving Repr, Inhabited
@@ -27,6 +28,7 @@ def visit : Shape → List Nat
   | .tuple l | .arr l | .slice l | .vec l => visitL l
   | .box s | .some s | .ok s | .err s | .md s | .aus s => visit s
   | .cell b s => if b then [] else visit s     -- `try_borrow_mut` fails on a borrowed cell
+  | .cellShared _ => []                        -- … also on a cell with a shared borrow
 def visitL : List Shape → List Nat
   | [] => []
   | s :: r => visit s ++ visitL r
@@ -38,7 +40,7 @@ def owned : Shape → List Nat
   | .cc i => [i]
   | .weak | .cleaner | .cleanable | .phantom | .prim | .none => []
   | .tuple l | .arr l | .slice l | .vec l => ownedL l
-  | .box s | .some s | .ok s | .err s | .md s | .aus s | .cell _ s => owned s
+  | .box s | .some s | .ok s | .err s | .md s | .aus s | .cell _ s | .cellShared s => owned s
 def ownedL : List Shape → List Nat
   | [] => []
   | s :: r => owned s ++ ownedL r
@@ -48,12 +50,41 @@ mutual
 /-- No `RefCell` inside is currently borrowed. -/
 def unborrowed : Shape → Bool
   | .cell b s => !b && unborrowed s
+  | .cellShared _ => false
   | .tuple l | .arr l | .slice l | .vec l => unborrowedL l
   | .box s | .some s | .ok s | .err s | .md s | .aus s => unborrowed s
   | _ => true
 def unborrowedL : List Shape → Bool
   | [] => true
   | s :: r => unborrowed s && unborrowedL r
+end
+
+mutual
+/-- What one `finalize` call on the container forwards to: the same traversal, but `Finalize for RefCell` only needs a shared
+borrow (`try_borrow`), so only a *mutably* borrowed cell is skipped. -/
+def finVisit : Shape → List Nat
+  | .cc i => [i]
+  | .weak | .cleaner | .cleanable | .phantom | .prim | .none => []
+  | .tuple l | .arr l | .slice l | .vec l => finVisitL l
+  | .box s | .some s | .ok s | .err s | .md s | .aus s => finVisit s
+  | .cell b s => if b then [] else finVisit s
+  | .cellShared s => finVisit s
+def finVisitL : List Shape → List Nat
+  | [] => []
+  | s :: r => finVisit s ++ finVisitL r
+end
+
+mutual
+/-- No `RefCell` inside is mutably borrowed. -/
+def notMutBorrowed : Shape → Bool
+  | .cell b s => !b && notMutBorrowed s
+  | .cellShared s => notMutBorrowed s
+  | .tuple l | .arr l | .slice l | .vec l => notMutBorrowedL l
+  | .box s | .some s | .ok s | .err s | .md s | .aus s => notMutBorrowed s
+  | _ => true
+def notMutBorrowedL : List Shape → Bool
+  | [] => true
+  | s :: r => notMutBorrowed s && notMutBorrowedL r
 end
 
 end Shapes
